@@ -112,6 +112,7 @@ class Ctx:
         self.mutself = False
         self.ret = None         # declared return type
         self.generic_map = {}   # generic type param name -> type
+        self.uses_kbits = False
 
 
 class Tr:
